@@ -255,21 +255,36 @@ func (m *monitor) hasHolderOther(e, g int) bool {
 }
 
 // blockedSet computes which outstanding acquire operations may legitimately be blocked given the
-// registered holders: an RLock is legitimately blocked iff one of its entities has a registered
-// writer (it may then hold read locks on the entities before that one, invisibly); a Lock is
-// legitimately blocked iff its entity has a registered holder or a legitimately blocked multi-entity
-// RLock may hold it. Every outstanding operation NOT in the set must be granted (or another
-// outstanding operation must be) without any further action of the controller.
+// registered holders and the other outstanding operations:
+//   - an RLock may be blocked iff one of its entities has a registered writer, or a Lock of another
+//     goroutine is outstanding on it: the mutex is "starving" by design - when a writer unlocks while
+//     writers are pending only a writer is signalled, and readers that were already asleep stay asleep
+//     until a writer unlocks with no writer pending (documented: "If there are waiting writers these
+//     will be served first before ANY reader can read again"); who wins is not asserted. A blocked
+//     multi-entity RLock may invisibly hold read locks on the entities before the one it is stuck at;
+//   - a Lock may be blocked iff its entity has a registered holder or a legitimately blocked
+//     multi-entity RLock may hold it.
+//
+// Every outstanding operation NOT in the set must be granted (or another outstanding operation must
+// be) without any further action of the controller.
 func blockedSet(mon *monitor, outstanding map[int]op) map[int]bool {
 	b := map[int]bool{}
 	mayHold := map[int]bool{}
+	pendingWriter := func(e, g int) bool {
+		for g2, o := range outstanding {
+			if g2 != g && o.Kind == opLock && o.Ents[0] == e {
+				return true
+			}
+		}
+		return false
+	}
 	for g, o := range outstanding {
 		if o.Kind != opRLock {
 			continue
 		}
 		last := -1
 		for i, e := range o.Ents {
-			if mon.hasWriterOther(e, g) {
+			if mon.hasWriterOther(e, g) || pendingWriter(e, g) {
 				last = i
 			}
 		}
@@ -518,22 +533,21 @@ func runScript(s script, inj *injection) (res result) {
 					return true
 				}
 				// an outstanding RLock may hold e invisibly unless it is certainly stuck at or before e:
-				// e itself or an earlier entity of its list has a registered writer
-				b := blockedSet(mon, outstanding)
+				// e itself or an earlier entity of its list has a REGISTERED writer
 				for g, oo := range outstanding {
 					if oo.Kind != opRLock {
 						continue
 					}
-					pos, last := -1, -1
+					pos, stuckAt := -1, -1
 					for i, e2 := range oo.Ents {
 						if e2 == e {
 							pos = i
 						}
-						if mon.hasWriterOther(e2, g) {
-							last = i
+						if stuckAt < 0 && mon.hasWriterOther(e2, g) {
+							stuckAt = i
 						}
 					}
-					if pos >= 0 && (!b[g] || pos < last) {
+					if pos >= 0 && !(stuckAt >= 0 && stuckAt <= pos) {
 						return true
 					}
 				}
